@@ -174,10 +174,19 @@ SymOf(style) == CASE style = "qmark" -> "?" [] style = "format" -> "%s" [] style
                   [] style = "named" -> ":name" [] style = "pyformat" -> "%(name)s"
 VARIABLES cs, out
 vars == <<cs, out>>
+\* the three theorems about one statement, evaluated once (the invariants below read the result)
+Judge(N) == LET d == [s \in Styles |-> Deliver(s, N)]
+                e == Expected(N)
+                q == d["qmark"] IN
+   [stmt |-> N,
+    correct |-> \A s \in Styles : Resolve(s, d[s].sql, d[s].params) = e,
+    exact |-> \A s \in Styles : Accepts(s, d[s].sql, d[s].params),
+    \* sensitivity: exchanging two different positional parameters is always visible to Resolve
+    swapseen |-> \A i, j \in 1..Len(q.params) : (i < j /\ q.params[i] # q.params[j]) =>
+                     Resolve("qmark", q.sql, [q.params EXCEPT ![i] = q.params[j], ![j] = q.params[i]]) # e,
+    qmark |-> q.params, numeric |-> d["numeric"].params]
 Init == \/ /\ Mode = "model" /\ cs \in Stmts
-           /\ out = [stmt |-> Norm(cs), ok |-> \A s \in Styles : LET d == Deliver(s, Norm(cs)) IN
-                                                /\ Resolve(s, d.sql, d.params) = Expected(Norm(cs)) /\ Accepts(s, d.sql, d.params),
-                     qmark |-> Deliver("qmark", Norm(cs)).params, numeric |-> Deliver("numeric", Norm(cs)).params]
+           /\ out = Judge(Norm(cs))
            /\ PrintT(ToJson(out))
         \/ /\ Mode = "names" /\ cs \in NameCases
            /\ out = [names |-> [i \in 1..3 |-> NamePool[cs[i]]], distinct |-> KeysDistinctFor(cs)]
@@ -190,12 +199,9 @@ Init == \/ /\ Mode = "model" /\ cs \in Stmts
            /\ PrintT(ToJson(out))
 Next == UNCHANGED vars
 
-DeliveryCorrect == Mode = "model" => \A s \in Styles : LET d == Deliver(s, Norm(cs)) IN Resolve(s, d.sql, d.params) = Expected(Norm(cs))
-ParamsExact == Mode = "model" => \A s \in Styles : LET d == Deliver(s, Norm(cs)) IN Accepts(s, d.sql, d.params)
-\* sensitivity of the theorem: swapping two parameters of a positional delivery, or sharing a key, is seen by Resolve
-SwapSeen == Mode = "model" => LET d == Deliver("qmark", Norm(cs)) IN
-   \A i, j \in 1..Len(d.params) : (i < j /\ d.params[i] # d.params[j]) =>
-      Resolve("qmark", d.sql, [d.params EXCEPT ![i] = d.params[j], ![j] = d.params[i]]) # Expected(Norm(cs))
+DeliveryCorrect == Mode = "model" => out.correct
+ParamsExact == Mode = "model" => out.exact
+SwapSeen == Mode = "model" => out.swapseen
 KeysDistinct == Mode = "names" => KeysDistinctFor(cs)
 TraceStyle == Mode = "trace" => LET phs == PhToks(Traces[cs].sql) IN \A i \in 1..Len(phs) : phs[i].sym = SymOf(Traces[cs].style)
 TraceCorrect == Mode = "trace" => out.correct
